@@ -16,7 +16,6 @@ for f in d['fixed']:
     out.append('| %s | %s | %s |' % (m.group(1), m.group(2), m.group(3).replace('|', '/')))
 why = {'C14': 'a repair means choosing how the two correlations are reconciled at the critical point (clamp sat(), or widen tsat()\'s range); a maintainer\'s decision, and nothing but the single end point fails',
        'C15': 'changing the accepted range of supst(bounds=True) changes public behaviour users may rely on',
-       'C08': 'needs a decision on what add_rocktype() of an existing name should do to the blocks using the old object (documented as "replaces"); the defect only shows after that',
        'C12': 'the de-duplication tolerance in line_polygon_intersections is relative to the whole line length by design; making it absolute changes which short clips are dropped everywhere',
        'C10': 'the add_/delete_ primitives leave refreshing to the caller (setup_block_name_index etc. are public for that purpose); refreshing inside them changes their cost from O(1) to O(blocks) per call and their documented contract'}
 out += ['', 'Recorded, not repaired (the check prints `KNOWN-FINDING:` and exits 0; any other violation still exits 1):', '',
@@ -48,15 +47,17 @@ for s in sorted(os.listdir(os.path.join(V, 'seeded'))):
     if m.get('rebased'):
         rebased.append(s)
     r = res.get((s, prop))
+    if m.get('superseded'):
+        r = ('SUPERSEDED (no longer breaks the property on the repaired tree, see 8.3)', [])
     summ = re.split(r'(?<=[.;]) ', m['summary'])[0][:260].replace('|', '/')
     keys = ', '.join('`%s`' % k for k in (r[1][:2] if r else []))
     rows.append('| %s | %s | %s %s | %s |' % (s, summ, r[0] if r else 'NOT RUN', keys, notes.get(prop, '')))
 out += ['', '### 8.4 Seeded changes (independent sub-agents) and which checks catch them', '',
-        '%d changes were written by fresh sub-agents (seven rounds: <id>-1, <id>-2 early on; <id>-3 after all checks existed;' % len(rows),
+        '%d changes were written by fresh sub-agents (nine rounds: <id>-1, <id>-2 early on; <id>-3 after all checks existed;' % len(rows),
         '<id>-4 with the instruction to aim at interactions, carried state and boundary values; <id>-5 see below) that were given only the text of',
         'one property and a scratch git worktree of /repo (nothing from /verif).  Four of the twenty round-2 changes (C05-3,',
         'C10-3, C14-3, C19-3), five of the twenty round-3 changes (C04-4, C10-4, C13-4, C15-4, C19-4) and ten of the twenty',
-        'round-4 changes (<id>-5), ten of the twenty round-5 changes (<id>-6) eleven of the twenty round-6 changes (<id>-7) and eight of the twenty round-7 changes (<id>-8) (shared helpers, optional arguments, call',
+        'round-4 changes (<id>-5), ten of the twenty round-5 changes (<id>-6) eleven of the twenty round-6 changes (<id>-7) eight of the twenty round-7 changes (<id>-8) eight of the twenty round-8 changes (<id>-9) and ten of the twenty round-9 changes (<id>-10) (shared helpers, optional arguments, call',
         'order, data-dependent corners, flavour-specific paths, copy semantics; tables at the end of 8.2) escaped the checks as they were; each miss was an input class the generators did not produce, the generators',
         'were widened, and all %d changes are now caught by the quick tier.  Each change was confirmed' % len(rows),
         '(`tools/ingest_seed.py`: applies, the 37 pinned tests',
